@@ -10,7 +10,8 @@ PROPS = {
               'insertions, CRLF, truncation) and degenerate sources; every node is checked against a recursive baseline built '
               'from children() only (parent, child(i), nesting, ancestors, next/prev, next_all/prev_all incl. the root, '
               'Pre/Post/Level/Visitor traversals from the root and from inner nodes, line/character columns). '
-              'Non-trivial = distinct (file, node) with >= 2 children in a file containing an ERROR node or a multi-byte character.'),
+              'Non-trivial = distinct (file, node) with >= 2 children in a file containing an ERROR node or a multi-byte character.'
+              ' Additions: source mutations `long line` (a 4-5 KiB single line with a multi-byte prefix) and `lone CR`.'),
         floor={'quick': 100000, 'thorough': 1000000},
         assumptions=['children() enumerates the children of a node (it is the baseline of every clause)',
                      'sibling-sequence clause skipped under parents that have a zero-width child (statement)'],
@@ -23,7 +24,8 @@ PROPS = {
               'blank lines added/removed, replacement from a real pattern match. After every step source() must equal the harness splice and, '
               'when a fresh parse of that text is error-free, the DFS dump (kind id, named, byte range, line/char column, child count) and the '
               'results of probe searches must be identical. evaluations = steps compared with a fresh parse. '
-              'Non-trivial = distinct histories with >= 2 steps in which a length-changing edit precedes a later compared step.'),
+              'Non-trivial = distinct histories with >= 2 steps in which a length-changing edit precedes a later compared step.'
+              ' Additions: whitespace-only edits (indentation grows or shrinks, a line break becomes blanks and vice versa).'),
         floor={'quick': 300, 'thorough': 5000},
         level_text=('Thousands of edit steps on real sources are compared node by node with a fresh parse; held on the histories executed. '
                     'The thorough tier also runs the workload inside an AddressSanitizer build, one process per language (DESIGN.md §9.7).'),
@@ -53,7 +55,8 @@ PROPS = {
               '$V0.. or a trailing run of named children with $$$V. The premise "same tree shape" is CHECKED by structural alignment of the public PatternNode tree with the node '
               '(same kinds, same child counts, equal terminal text, holes exactly over the abstracted byte ranges); cases failing it are counted as skipped_premise and never judged. '
               'evaluations = cuts generated; each premise-holding cut is matched at cst/smart/ast/relaxed/signature and every binding range compared. '
-              'Non-trivial = distinct (file, node, pattern) whose premise held and which have >= 1 hole or an ellipsis or a node with >= 3 children.'),
+              'Non-trivial = distinct (file, node, pattern) whose premise held and which have >= 1 hole or an ellipsis or a node with >= 3 children.'
+              ' Additions: a third of the premise-holding cuts is also used as the CONTEXT of a pattern with a selector (the first node of the selector kind must be the image of the chosen sub-node): the selected sub-pattern must match that sub-node at all five levels and bind the holes inside it.'),
         floor={'quick': 20000, 'thorough': 100000},
         level_text='Tens of thousands (quick) to ~0.6 M (thorough) cut patterns per run, each checked at five strictness levels; held on the cuts executed.',
         level_note='Trusted: the structural premise check (refsem/align.rs::shape) and children() enumeration. Holes only on named descendants; nodes containing ERROR/MISSING are excluded (statement).',
@@ -77,7 +80,8 @@ PROPS = {
               'stopBy neighbor|end|rule and field (neighbor only), matches with 0-2 acyclic utilities; leaves are harvested from the scanned file (kinds that occur, variable-disjoint cut patterns, '
               'identifier regexes, real and near-miss ranges). Each rule is loaded from its YAML through SerializableRuleCore and evaluated on every node (root included, <= 900 nodes per source) of '
               'corpus excerpts and error-ridden variants without zero-width nodes; RuleCore::match_node(n).is_some() must equal the reference. evaluations = (rule, node) pairs. '
-              'Non-trivial = distinct (source, rule) pairs where the rule is true on >= 1 node and false on >= 1 node.'),
+              'Non-trivial = distinct (source, rule) pairs where the rule is true on >= 1 node and false on >= 1 node.'
+              ' Additions: `field` is generated with every stopBy; recursive utilities (self / forward reference below a relation with stopBy neighbor); utilities used more than once lose their captures (the statement quantifies over variable-disjoint sub-patterns); rule / tree combinations above an estimated 1e10 atom evaluations are not started.'),
         floor={'quick': 500000, 'thorough': 10000000},
         level_text='Millions of (rule, node) evaluations per run against an independent evaluator over parent()/children(); disagreements are shrunk and attributed; held on the rules and trees executed.',
         level_note=('Trusted: refsem/rule_bool.rs (written from the rule reference and the schema descriptions), the regex crate, Pattern atoms (judged by C02/C03), tree-sitter child_by_field_name. '
@@ -91,7 +95,8 @@ PROPS = {
               'constraints) and rule-level constraints; 3/4 of the bodies come from targeted shapes (relation over not/all/any/nested relation/utility with decoys), the rest from the random rule '
               'generator. (a) synthetic JavaScript sibling lists f(1); g(2); { h(1); } last(); ... evaluated under permutations of the statements, (b) excerpts of all 23 corpus languages with '
               'patterns cut from them and variables renamed into the shared pool. For every node: outcome and the full environment (single and multi captures by byte range, label `secondary` ignored) '
-              'must equal the reference. evaluations = (document, source, node) triples. Non-trivial = distinct documents in which some name occurs in >= 2 patterns and which match >= 1 node and reject >= 1 node.'),
+              'must equal the reference. evaluations = (document, source, node) triples. Non-trivial = distinct documents in which some name occurs in >= 2 patterns and which match >= 1 node and reject >= 1 node.'
+              ' Additions: (c) the repeated-hole and repeated-ellipsis oracles -- two sub-trees (two bracketed lists) of one kind inside a host node are abstracted by the same variable, one of them is then replaced by the other\'s text, by a truncation at a child boundary, by an emptied / shortened list or by another node of the file, the host is re-parsed, and a match is a violation whenever the two occurrences spell different token sequences (premises: the pattern parses without ERROR and contains the variable twice; identical text is identical code). Constrained global utilities are referenced on the node, behind has/inside/follows/precedes and inside `any`.'),
         floor={'quick': 1000000, 'thorough': 20000000},
         level_text='Millions of (rule, node) evaluations with shared variable names; environments compared exactly; held on the documents and permutations executed.',
         level_note=('Trusted: refsem/rule_env.rs (conjunction order atomic->composite->relational as documented, `any` first winning branch, relations nearest-first with every candidate starting from the '
@@ -107,7 +112,8 @@ PROPS = {
               'rule alone; hook H1 re-evaluates the skipped work at FindAllNodes, All/Any kind caches, RuleCore kinds, CombinedScan kind dispatch (would_match=true is a violation). '
               'CLI: for 8 (quick) / 23 (thorough) languages a directory of corpus files is searched with `ast-grep run -p .. -l .. --strictness .. [--selector ..] --json=stream` and '
               '`ast-grep scan -r rule.yml --json=stream`; the multiset of (file, byte range) must equal the library answer per file and the H1 event log of the binary (literal prefilter) must be empty. '
-              'evaluations = matcher/source cases + CLI invocations. Non-trivial = distinct cases whose matcher has a kind set (acceleration active) and matches >= 1 node; rule sets with >= 2 rules; CLI queries with >= 1 expected match.'),
+              'evaluations = matcher/source cases + CLI invocations. Non-trivial = distinct cases whose matcher has a kind set (acceleration active) and matches >= 1 node; rule sets with >= 2 rules; CLI queries with >= 1 expected match.'
+              ' Additions: the CLI part covers all 23 languages in both tiers and adds, for every cut pattern, variants with one lower-case word upper-cased (case-insensitive keywords); utilities include recursive / forward-referencing ones; every other rule document is loaded together with global utilities that carry the ids of its local utilities, and violations that disappear without them are attributed to the shadowing.'),
         floor={'quick': 10000, 'thorough': 60000},
         level_text='Tens of thousands of searches and ~50 M observed prune decisions per quick run, each prune decision individually checked by evaluating the skipped work; held on the executions observed.',
         level_note='Trusted: Pre-order dfs() (checked by C19), match_node on a single node (judged by C02-C05). The prune hooks only ADD evaluation; the CLI comparison uses the hooked release binary.',
@@ -120,7 +126,8 @@ PROPS = {
               'optional joinBy, optional expansions). For every match of the overlap-free visitor the edit must lie inside the file on character boundaries with valid UTF-8, start at the match '
               '(or cover it when expanded, without leaving the parent), replace_all must be ordered/disjoint and as numerous as the visitor\'s matches, AstGrep::replace must yield exactly the '
               'original with the first range substituted, and for single-line captures the transformed value must equal the harness splice of the first-matching, non-overlapping rewriter edits. '
-              'evaluations = generated (pattern, source) cases. Non-trivial = distinct (source, rule) with >= 2 edits, or multi-byte text within 16 bytes of an edit, or an expansion that moved a boundary, or >= 1 rewriter sub-edit.'),
+              'evaluations = generated (pattern, source) cases. Non-trivial = distinct (source, rule) with >= 2 edits, or multi-byte text within 16 bytes of an edit, or an expansion that moved a boundary, or >= 1 rewriter sub-edit.'
+              ' Additions: rewrite transformations use one or two rewriters whose kinds are taken from the captured sub-tree (nested rewriter matches are frequent), joinBy in half of the cases.'),
         floor={'quick': 2000, 'thorough': 50000},
         level_text='~100 k edits per quick run are individually asserted and the rewritten text compared with an independent splice; held on the rewrites executed.',
         level_note='Trusted: the harness splice, the overlap-free visitor as enumeration of matches (judged by C01). Multi-line rewriter captures and rewriters with expansions are checked for invariants only (valid UTF-8, no panic).',
@@ -134,7 +141,8 @@ PROPS = {
               'capture from indentation in_i to in_i - indent(capture line) + indent(template slot line) and shifts every later line by indent(match line). Identity: the pattern text (de-indented by '
               'the match line) used as fix must reproduce the node text when C02\'s shape premise holds. Transformed variables (substring) through a real rule. '
               'No verdict: captures with tabs/CR, blank or under-indented continuation lines, match more than 480 bytes into its line, templates outside the scanner\'s verdict set. '
-              'evaluations = (match, template) pairs. Non-trivial = distinct pairs with a multi-line capture or a multi-line template.'),
+              'evaluations = (match, template) pairs. Non-trivial = distinct pairs with a multi-line capture or a multi-line template.'
+              ' Additions: 1 500 (quick) / 60 000 (thorough) synthetic cases per shard on string fragments over {a,b,z,e-acute,ya,A,B,Z,E-acute,YA,digits,-./ _}: `convert` for all seven cases and every separatedBy subset (letters and digits are conserved for every input; exact reference for inputs made of letters and selected delimiters), `substring` (Python slice) and `replace` (regex with capture groups) on non-ASCII text.'),
         floor={'quick': 10000, 'thorough': 300000},
         level_text='Tens of thousands of template expansions per quick run compared byte for byte with an independent model; held on the expansions executed.',
         level_note='Trusted: refsem/template.rs (scanner shared with C20, indentation model transcribed from the module documentation of replacer/indent.rs and the property statement), bindings taken from the real match (judged by C02).',
@@ -148,7 +156,8 @@ PROPS = {
               'source undefined, constraints key undefined, referenced utility removed, rewriter removed, transform self-dependent / cyclic, utility requiring itself through matches / all / any / not / '
               'nthChild.ofRule / mutually, every kind-giving atom removed (must be rejected), self-reference through has (either outcome). Unperturbed twins must load; every accepted document is run on '
               'a matching source and generate_replacement must equal the reference expansion over captured and transformed values. Cyclic documents are never executed. '
-              'evaluations = documents. Non-trivial = distinct perturbed documents (classes are counted separately in the evidence).'),
+              'evaluations = documents. Non-trivial = distinct perturbed documents (classes are counted separately in the evidence).'
+              ' Additions: 40 000 (quick) / 1 000 000 (thorough) documents; the reference to a utility sits in one of twelve positions (all relations, stopBy, nthChild.ofRule, any, constraints ...); further perturbation classes: exactly one reference renamed to an undefined id, undefined utility inside a rewriter, transformation cycle through `rewrite`, kind-less local utility shadowing a global utility that has kinds.'),
         floor={'quick': 2000, 'thorough': 100000},
         level_text='Every perturbation class is exercised hundreds (quick) to thousands (thorough) of times with randomised surrounding parts; acceptance and the converse replacement clause are asserted per document.',
         level_note='Trusted: the generator\'s knowledge of which perturbation is inconsistent (by construction), refsem/template.rs, transformed values as computed by the implementation (their arithmetic is C20\'s).',
@@ -164,7 +173,8 @@ PROPS = {
               'process (vmon c11) and, when accepted, scanned over 3-5 texts of its language (CombinedScan both modes, messages, edits). A dying child is narrowed to one input through its progress marker '
               'and confirmed alone under a 10 s CPU limit. CLI part: 220 (quick) / 1500 (thorough) of those rule files through `ast-grep scan -r|--inline-rules [-j 4]` and 90 / 600 generated projects '
               '(sgconfig variants, rule/util/test/snapshot files with wild values) through scan / test [-U]: no panic message, no signal, no CPU overrun, no deadlock (all threads sleeping with unchanged CPU time on three samples). '
-              'evaluations = documents + CLI invocations. Non-trivial = accepted documents that produced >= 1 match, documents rejected by a layer deeper than YAML syntax, CLI runs.'),
+              'evaluations = documents + CLI invocations. Non-trivial = accepted documents that produced >= 1 match, documents rejected by a layer deeper than YAML syntax, CLI runs.'
+              ' Additions: generated rules carry files / ignores / severity / labels / note / url / metadata; accepted rules are also scanned over hostile texts (mixed-case non-ASCII identifiers, CRLF, tabs, astral characters, deep nesting); project configs perturb exactly one sgconfig key with typed wild values (empty lists, invalid globs); all printers (coloured, short, GitHub, JSON, -U) run; the full product severity x files/ignores x fix x printer for one matching rule; a process whose threads only poll each other counts as hung, and a panic message from ast-grep\'s code is reported even when the watchdog cannot classify the process.'),
         floor={'quick': 20000, 'thorough': 1000000},
         level_text='Tens of thousands (quick) to millions (thorough) of hostile configurations executed in isolated children; crash-freedom is sampled, not exhausted.',
         level_note=('Trusted: the process-level observations (exit status, signals, /proc task states, stderr). The harness build has overflow checks and debug assertions ON, the CLI is the plain release build; '
@@ -178,7 +188,8 @@ PROPS = {
               'own-line directives, trailing directives, both, stacked and adjacent directives, at file start/end; id lists: none, one, several, unknown ids. The line model says: finding (r, L) is '
               'suppressed iff an own-line directive on L-1 or a trailing directive on L lists r or nothing; a directive is unused iff it suppressed nothing. Compared with CombinedScan::scan (matches and '
               'unused-suppression entries, per-line multiplicities) and, for 130 (quick) / 1200 (thorough) of the same files, with the records of `ast-grep scan --json=stream` in a project with rule files. '
-              'evaluations = files. Non-trivial = distinct files with >= 2 directives, >= 2 findings and at least one id list.'),
+              'evaluations = files. Non-trivial = distinct files with >= 2 directives, >= 2 findings and at least one id list.'
+              ' Additions: two twin rules (r1b, a3) report the same nodes as r1 / r3 under ids that are prefixes of each other and sort on either side; two- and three-line statements with a comment inside (enabled per language after checking that the rules match the form); empty lines; id separators `, ` `,` ` , ` ` ,`; 30 000 (quick) / 600 000 (thorough) files.'),
         floor={'quick': 3000, 'thorough': 100000},
         level_text='Thousands of generated files per quick run, every finding and every directive judged by the line model; held on the placements executed.',
         level_note='Trusted: the line model (harness/src/mon/c14.rs::model, written from the statement), the six rules of each language (four statements, two of them reported by a twin rule as well) firing exactly once per statement, two- and three-line spellings enabled per language after checking that the rules match them (asserted: the rules must load; unsuppressed findings are compared with multiplicity).',
@@ -193,7 +204,8 @@ PROPS = {
               'text == bytes[start:end]; start/end line = number of newlines before the offset, column = characters since the line start; the same for every single and multi meta-variable; lines == the whole '
               'lines [line(start)-B, line(end)+A] clipped to the file; charCount == characters of `lines` before/after the match; replacementOffsets a character-aligned range of the file; stdout parses as one '
               'JSON array (or one object per line) for any number of files; every path:N:text line of the plain report carries line N of that file. '
-              'evaluations = CLI invocations. Non-trivial = distinct records preceded on their line by a multi-byte character, spanning lines, touching file start/end or carrying context, plus plain reports with >= 1 line.'),
+              'evaluations = CLI invocations. Non-trivial = distinct records preceded on their line by a multi-byte character, spanning lines, touching file start/end or carrying context, plus plain reports with >= 1 line.'
+              ' Additions: empty lines inside multi-line calls and around statements.'),
         floor={'quick': 300, 'thorough': 5000},
         level_text='Thousands of records per quick run are recomputed from the bytes on disk; held on the files, patterns, styles and context settings executed.',
         level_note='Trusted: python json and utf-8 decoding, the 60-line oracle in drivers/c16.py. Record ORDER is not judged.',
@@ -206,7 +218,8 @@ PROPS = {
               '`kind: <root kind of its language>` (fires exactly once per file it is applied to) with random language, severity, files and ignores globs of the forms **/*.ext, **/name.ext, dir/**, '
               'dir/**/*.ext and exact paths; 6 (quick) / 12 (thorough) invocations per project from the project root with none / blanket / per-id / mixed --error|--warning|--info|--hint|--off overrides or --filter. '
               'The observed set of (file, ruleId, severity) must equal applies(rule, file) = language AND (no files OR some files glob) AND no ignores glob AND effective severity != off AND id passes the filter, '
-              'and exit status != 0 iff some reported finding has effective severity error. evaluations = invocations. Non-trivial = distinct invocations in which a glob or an override (not only the language) decides for some pair.'),
+              'and exit status != 0 iff some reported finding has effective severity error. evaluations = invocations. Non-trivial = distinct invocations in which a glob or an override (not only the language) decides for some pair.'
+              ' Additions: languageGlobs also re-assign extensions of built-in languages (ts, h, json, mjs, pyi).'),
         floor={'quick': 300, 'thorough': 10000},
         level_text='Hundreds (quick) to ~18 000 (thorough) invocations over generated layouts; every (rule, file) pair is decided by the independent predicate; held on the projects executed.',
         level_note='Trusted: the 15-line glob matcher restricted to forms whose meaning does not depend on `*` crossing `/`, the extension table copied from the language reference. Paths are taken relative to the project root without `./`.',
@@ -236,7 +249,8 @@ PROPS = {
               '`run -p .. -r .. -U`; each project is updated twice (quick) / three times (thorough) in a row. The announcement is the same command with --json=stream on an identical copy '
               '(`scan --json=stream -U` prints the diffs in application order without writing). Oracle per file: after == original with the accepted edits substituted, where an announced edit is '
               'accepted unless it overlaps an earlier accepted one; files without accepted edits and all config files byte-identical; `Applied N changes` == number of accepted edits. '
-              'evaluations = update invocations. Non-trivial = distinct (file, rule set) with >= 2 accepted edits, or a dropped overlapping edit, or a file written more than once (several documents).'),
+              'evaluations = update invocations. Non-trivial = distinct (file, rule set) with >= 2 accepted edits, or a dropped overlapping edit, or a file written more than once (several documents).'
+              ' Additions: 240 (quick) / 2400 (thorough) projects in parallel; js/tsx/rs files; rules on single JavaScript node kinds (adjacent, nested and equal ranges), fixes that really expand (numbers followed by commas, expandStart), six `run` pattern/rewrite pairs; files start with blank lines / CRLF in half of the cases.'),
         floor={'quick': 60, 'thorough': 2000},
         level_text='Hundreds of update runs per quick tier with ~1000 accepted and ~800 dropped (overlapping) edits, every file compared byte for byte; held on the projects executed.',
         level_note='Trusted: the --json announcement of the same binary as statement of intent (its positions are judged by C16), the 10-line splice.',
@@ -250,7 +264,8 @@ PROPS = {
               'shuffle rewriters, rename rule files or merge them into one multi-document file in shuffled order; every variant is scanned in 6 (quick) / 12 (thorough) fresh processes alternating -j 1 and -j 8. '
               'Oracle: the sorted multiset of records (each parsed and re-serialised with sorted keys: file, ruleId, range, message, replacement, replacementOffsets, metaVariables incl. transformed) is identical for '
               'all launches of all variants; `ast-grep test` exits 0 right after `test -U`, snapshot files are byte-identical across variants and a second `test -U` does not rewrite them. '
-              'evaluations = process launches. distinct_nontrivial = distinct project variants; the evidence lists the distinct key orders seen per site (utils registration, transform order, constraint evaluation).'),
+              'evaluations = process launches. distinct_nontrivial = distinct project variants; the evidence lists the distinct key orders seen per site (utils registration, transform order, constraint evaluation).'
+              ' Additions: seven of eight projects are random utility graphs (references in every operator position, kind-less nthChild.ofRule, self-reference through relations, global utilities with local utilities of their own) with 2-4 fixable top rules matching the same nodes and a rule whose constraints bind further variables; the sources contain unused suppression directives; the accept/reject verdict of a launch is part of the compared result; `scan -U` is run on a copy of every variant and the resulting sources compared with variant 0; 64 (quick) / 480 (thorough) projects in parallel.'),
         floor={'quick': 100, 'thorough': 2500},
         level_text='Hundreds (quick) to thousands (thorough) of fresh-process launches over permuted but equivalent projects; the hash orders that actually occurred are counted from hook events; held on those.',
         level_note='Trusted: YAML/JSON map semantics (permutation preserves meaning), python canonicalisation. Record ORDER in the output is not part of the statement.',
@@ -266,7 +281,8 @@ PROPS = {
               'workspace/workspaceFolders request immediately or only after k further notifications; failpoints delay the server at its existing await points. After the traffic has been quiet (bounded progress, '
               'watchdog => inconclusive) the server must still answer a request and the LAST diagnostics published for every open URI must be those of the highest-version text received since its last open '
               '(reference: a fresh session opening exactly that text). evaluations = CLI invocations + LSP sessions. Non-trivial = front-end cases with >= 2 findings from >= 2 rules, histories with >= 3 notifications on one URI; '
-              'the evidence counts distinct server-side interleavings seen through H4.'),
+              'the evidence counts distinct server-side interleavings seen through H4.'
+              ' Additions: texts contain multi-line statements and non-ASCII prefixes; 96 (quick) / 1200 (thorough) histories run 8 at a time, with a cooperative-yield failpoint at the await between storing a changed document and publishing its diagnostics; the thorough tier repeats 64 histories on a ThreadSanitizer build.'),
         floor={'quick': 200, 'thorough': 3000},
         level_text='Hundreds of cross-front-end comparisons and tens to hundreds of hostile LSP histories per run; liveness is decided as bounded progress plus a /proc deadlock test; held on the histories and schedules that occurred.',
         level_note='Trusted: the stdlib JSON-RPC client (drivers/lspclient.py), regex parsers of the github/short formats, the fresh-session reference. Texts contain no ast-grep-ignore comments (C14 covers them).',
@@ -279,7 +295,8 @@ PROPS = {
               'replacements) and a generated source with several matches and multi-byte text. Per pair: (1) the library\'s make_edit for every match (vmon c08-lib), (2) replacementOffsets/replacement of '
               '`scan -r rule.yml --json=stream`, (3) the file bytes after `scan -r rule.yml -U` vs the splice of the announced edits, (4) `fixed` in tests/__snapshots__ after `test -U` vs the splice of the first '
               'library edit, (5) ranges and data.fixed of the published diagnostics, the TextEdits of textDocument/codeAction quick-fix and of source.fixAll (positions converted to byte offsets with the driver\'s own line table) '
-              'must all denote the same (byte range, text). evaluations = pairs. Non-trivial = distinct pairs whose edit range differs from the matched node (trimming or expansion active) or whose replacement is multi-line.'),
+              'must all denote the same (byte range, text). evaluations = pairs. Non-trivial = distinct pairs whose edit range differs from the matched node (trimming or expansion active) or whose replacement is multi-line.'
+              ' Additions: 200 (quick) / 2000 (thorough) pairs run in parallel; sources start with blank lines / CRLF in a third of the cases and contain non-ASCII text before the matches; every second block of ten adds a rule without fix whose findings enclose the fixable ones; an LSP mismatch is attributed to the known `expanded` finding only if the offered ranges are exactly the complete set of unexpanded node ranges.'),
         floor={'quick': 30, 'thorough': 300},
         level_text='Every pair is observed through five independent front ends of the real binaries; held on the pairs executed.',
         level_note='Trusted: the snapshot YAML scalar reader and the position conversion in drivers/c08.py (characters per line as the server counts them; UTF-16 columns of astral characters are out of scope), the LSP client.',
